@@ -73,7 +73,14 @@ func ClearTextPassword(validate func(ctx context.Context, database, username, pa
 		}
 
 		if !valid {
-			return ctx, ErrorCode(writer, pgerror.WithCode(errors.New("invalid username/password"), codes.InvalidPassword))
+			// NOTE: the connection is not authenticated, the rejection is
+			// reported to the client and returned to abort the connection.
+			err = pgerror.WithSeverity(pgerror.WithCode(errors.New("invalid username/password"), codes.InvalidPassword), pgerror.LevelFatal)
+			if werr := errorResponse(writer, err); werr != nil {
+				return ctx, werr
+			}
+
+			return ctx, err
 		}
 
 		return ctx, writeAuthType(writer, authOK)
